@@ -96,7 +96,7 @@ class NotifyOracle:
 
     def on_op(self, T, label):
         _, opidx, f, a = label[:4]
-        if f == "set_value":
+        if f in ("set_value", "rebind_values"):
             g, ev, hx = a
             if ev not in self.values:
                 self.values[ev] = []
@@ -180,7 +180,19 @@ class NotifyOracle:
             by.setdefault(d["dst"], ([], []))[0].append(d)
         for x in self.expect:
             by.setdefault(x["dst"], ([], []))[1].append(x)
+        def cyclic_like(d):
+            # a cyclic round carries the events the group had when the round was triggered or when it was sent (a
+            # values dict replaced while the address lookup is under way shows up in the next round)
+            g = d["group"]
+            if g is None or not self.groups[g].get("interval"):
+                return False
+            instants = [self.early(d["T"]) - RES, d["T"] + RES] + [self.values[e][0][0] + RES for e in self.order[g] if self.early(d["T"]) - RES <= self.values[e][0][0] <= d["T"] + RES]
+            return any(d["events"] == [e for e in self.order[g] if self.values[e][0][0] <= x] for x in instants)
+
         for dst, (dg, ex) in by.items():
+            # datagrams that cannot be a cyclic round claim their initial / explicit round first (the matching keeps
+            # what it matched): a datagram that may be either is left for the cyclic rounds if need be
+            dg.sort(key=lambda d: (cyclic_like(d), d["T"]))
             adj = [[j for j, x in enumerate(ex) if x["lo"] - RES <= d["T"] <= x["hi"] + RES and x["events"] == d["events"]] for d in dg]
             m = _matching(adj, len(ex))
             for i, d in enumerate(dg):
@@ -188,7 +200,7 @@ class NotifyOracle:
                     self.probe("matched_" + ex[m[i]]["kind"])
                     continue
                 g = d["group"]
-                cyc = g is not None and self.groups[g].get("interval") and d["events"] == [e for e in self.order[g] if self.values[e][0][0] <= d["T"] + RES]
+                cyc = cyclic_like(d)
                 if cyc:
                     eps = [ep for ep in self.eps_of(g) if ep_addr(ep) == dst]
                     if any(self.subscribed_in(g, ep, self.early(d["T"]), d["T"]) != "never" for ep in eps):
